@@ -58,7 +58,7 @@ class DirectCtx(BaseCtx):
     def note(self, key, value):
         self.notes[key] = value
 
-    def fresh_env(self):
+    def fresh_env(self, hashcons="exact"):
         from unified_planning.environment import Environment
 
         return Environment()
